@@ -1,6 +1,7 @@
 // Shared harness types for the libcappuccino model-checking engines.
 // Virtual clock, key/value types, operation encoding.
 #pragma once
+#include <atomic>
 #include <chrono>
 #include <cstdint>
 #include <cstdio>
@@ -17,7 +18,9 @@ namespace vf
 // returns this value.  thread_local so independent explorations can run in worker threads.
 // ---------------------------------------------------------------------------------------------
 #ifdef VF_GLOBAL_CLOCK
-extern int64_t g_now_ns;
+// E2: one process-wide clock; atomic because in "clocked" programs a worker thread ticks it while
+// others read it (relaxed is enough: the harness never relies on it for ordering)
+extern std::atomic<int64_t> g_now_ns;
 #else
 extern thread_local int64_t g_now_ns;
 #endif
